@@ -11,6 +11,19 @@ COMMON_NOTE = ('Trusted: Lean 4.33 kernel with axioms propext/Classical.choice/Q
                'every invocation; harness generators, canonicalisation and monitors; ')
 
 CHECKS = {
+    'C13': dict(
+        text='Theorems: partition typing table (fs/crypt type -> wrapper -> keyslot); counters from a CID; counter inference for '
+             'CTR (zero MBR blocks) and TWL (standard MBR blocks, DSi byte reversal) returns the counter the image was encrypted '
+             'with, for any key with D inverse to E; NCSD header round trip bytes(from_bytes(b)) = b for every parsable header with '
+             'zero unused slots (induction over the table loop); structure of a successful open (keys, counters, indexes, '
+             'auto-raise); views = window o CTR/TWL wrapper o window refine an ordinary fixed-size file over the plaintext for every '
+             'read/write history (C01/C09/C12 composed).  Tied to pyctr by differential execution over images from an independent '
+             'builder (own OTP key schedule, scramblers, counters, ECB keystream), with re-open after writes.',
+        note=COMMON_NOTE + 'AES/SHA-1/SHA-256 are parameters; the OTP key schedule (setupKeysFromOtp) is a transcription checked by '
+             'correspondence against an independent derivation, not a theorem; GodMode9 bonus volume, sector 0x96 and the FAT '
+             'layers are outside the model; counters are assumed not to wrap 2^128.',
+        technique='Lean 4 proof (round trip, inference algebra, refinement stack) + model/implementation correspondence',
+        design='§4 C13'),
     'C17': dict(
         text='Theorems: the DPFS level-3 reader returns slices of the view that is, byte by byte, the copy selected by the '
              'level-2 bit of the byte\'s block (dpRead_view, dpfsView_getElem); the IVFC levels are windows of that view; '
